@@ -90,10 +90,12 @@ class L0:
         return self.slenf(t)
 
     def uf(self, name, *sorts):
-        f = self.ufs.get(name)
+        key = name + "|" + ",".join(str(s) for s in sorts)
+        f = self.ufs.get(key)
         if f is None:
-            f = z3.Function(name, *sorts)
-            self.ufs[name] = f
+            n = sum(1 for k in self.ufs if k.split("|")[0] == name)
+            f = z3.Function(name if n == 0 else "%s$%d" % (name, n), *sorts)
+            self.ufs[key] = f
         return f
 
     def fresh(self, hint="s"):
@@ -177,10 +179,12 @@ class L1:
         return z3.Length(t)
 
     def uf(self, name, *sorts):
-        f = self.ufs.get(name)
+        key = name + "|" + ",".join(str(s) for s in sorts)
+        f = self.ufs.get(key)
         if f is None:
-            f = z3.Function(name, *sorts)
-            self.ufs[name] = f
+            n = sum(1 for k in self.ufs if k.split("|")[0] == name)
+            f = z3.Function(name if n == 0 else "%s$%d" % (name, n), *sorts)
+            self.ufs[key] = f
         return f
 
     def fresh(self, hint="s"):
